@@ -89,6 +89,22 @@ pub fn complete(d: &BigUint, c1: &Pt, msg: &[u8]) -> Option<(Vec<u8>, [u8; 32])>
     Some((c2, c3))
 }
 
+/// the same completion with the shared point computed by the library's own arithmetic on the raw coordinates (what an
+/// attacker who studied this very build would send: a defect in the field layer changes [d]C1 for some operands, and a
+/// body completed by the reference then no longer matches what the decryptor computes)
+fn complete_with_library_arithmetic(d: &BigUint, c1: &Pt, msg: &[u8]) -> Option<(Vec<u8>, [u8; 32])> {
+    let (x, y) = c1.clone()?;
+    let Guard::Done(s) = guard(|| lib_point_raw(&x, &y).scalar_mul(&scalar(d)).to_affine_point()) else { return None };
+    if from_mont(&s.z).is_zero() {
+        return None;
+    }
+    let (x2, y2) = (cand(&from_mont(&s.x)), cand(&from_mont(&s.y)));
+    let t = sm3::kdf(&[&x2[..], &y2[..]].concat(), msg.len());
+    let c2: Vec<u8> = msg.iter().zip(t.iter()).map(|(a, b)| a ^ b).collect();
+    let c3 = sm3::sm3_cat(&[&x2, msg, &y2]);
+    Some((c2, c3))
+}
+
 fn raw_encode(c1_bytes: &[u8], c2: &[u8], c3: &[u8], c1c3c2: bool) -> Vec<u8> {
     let mut v = c1_bytes.to_vec();
     if c1c3c2 {
@@ -113,7 +129,7 @@ pub fn run(ctx: &Arc<Ctx>) {
     refmodels::selftest::run(&["sm3", "sm2"]).unwrap_or_else(|e| ctx.machinery_error(format!("reference self-test failed: {}", e)));
     let pr = sm2::params();
     let (n, p) = (pr.n.clone(), pr.p.clone());
-    ctx.set_rule("base ciphertexts (message lengths {1,17,32,33}, thorough 1..=40, x 2 orders x 2 C1 encodings, made by the reference encryptor): every single-bit flip of the whole ciphertext; every truncation length; C1 replaced by (x,y+-1), (x+-1,y), (0,0), points on y^2=x^3+ax+b' (incl. an order-2 point) with C2,C3 completed correctly for that point, compressed x that is a non-residue, x+p aliases of an on-curve point with tiny x, compressed non-residue x with the body completed for the bogus root, a ciphertext whose KDF output is all zero, C1 of another ciphertext; C2/C3 swapped between two ciphertexts; the C1 tag byte replaced by every other value; undecodable / off-curve C1 with the body completed for a fallback point (the recipient's public key, G, zero coordinates). The ASN.1 form through decrypt_asn1 with both values of its compressed flag: every single-bit flip of C1.x, C1.y, C3 and C2 re-encoded as a well-formed GM/T 0009 document, y negated, y + p, off-curve (x, y) with the original body and with the body completed for the foreign point, empty and truncated C2. Oracle: result must be Err — never Ok(anything), never a panic; the untouched ciphertext must decrypt.");
+    ctx.set_rule("base ciphertexts (message lengths {1,17,32,33}, thorough 1..=40, x 2 orders x 2 C1 encodings, made by the reference encryptor): every single-bit flip of the whole ciphertext; every truncation length; C1 replaced by (x,y+-1), (x+-1,y), (0,0), points on y^2=x^3+ax+b' (incl. an order-2 point) and points of the quadratic twist (x, rhs^((p+1)/4)) and off-curve points with x^3+ax+b = y or 2y for y in {R^-1, 2R^-1, 2} (cubic solved by the reference), with C2,C3 completed correctly for that point (by the reference and, separately, by the library's own arithmetic on the raw coordinates), compressed x that is a non-residue, x+p aliases of an on-curve point with tiny x, compressed non-residue x with the body completed for the bogus root, a ciphertext whose KDF output is all zero, C1 of another ciphertext; C2/C3 swapped between two ciphertexts; the C1 tag byte replaced by every other value; undecodable / off-curve C1 with the body completed for a fallback point (the recipient's public key, G, zero coordinates). The ASN.1 form through decrypt_asn1 with both values of its compressed flag: every single-bit flip of C1.x, C1.y, C3 and C2 re-encoded as a well-formed GM/T 0009 document, y negated, y + p, off-curve (x, y) with the original body and with the body completed for the foreign point, empty and truncated C2. Oracle: result must be Err — never Ok(anything), never a panic; the untouched ciphertext must decrypt.");
     let mut g = SplitMix::new(ctx.seed, "c06");
     let lens: Vec<usize> = ctx.tier.pick(vec![1, 17, 32, 33], (1..=40).collect());
     let d = hb(ANNEX_D);
@@ -180,6 +196,55 @@ pub fn run(ctx: &Arc<Ctx>) {
                         // invalid-curve attack: body recomputed for the foreign point
                         if let Some((c2, c3)) = complete(dd, &pt, &msg) {
                             cases.push(mk(raw_encode(&unc(&sx, &sy), &c2, &c3, c1c3c2), None, &format!("{}/invalid-curve-completed", lab)));
+                        }
+                        if let Some((c2, c3)) = complete_with_library_arithmetic(dd, &pt, &msg) {
+                            cases.push(mk(raw_encode(&unc(&sx, &sy), &c2, &c3, c1c3c2), None, &format!("{}/completed-with-library-arithmetic", lab)));
+                        }
+                    }
+                    // points of the quadratic twist in the uncompressed form: x with x^3+ax+b a non-residue and the y a
+                    // decoder gets from rhs^((p+1)/4) without checking the root (y^2 = -rhs), body completed for them
+                    {
+                        let mut nx = BigUint::from(2u32 + bi as u32);
+                        let mut found = 0;
+                        while found < 2 {
+                            let rhs = (&nx * &nx * &nx + &pr.a * &nx + &pr.b) % &p;
+                            if sm2::sqrt_mod_p(&rhs).is_none() {
+                                let y0 = rhs.modpow(&((&p + 1u32) >> 2), &p);
+                                for yy in [y0.clone(), (&p - &y0) % &p] {
+                                    let tpt: Pt = Some((nx.clone(), yy.clone()));
+                                    cases.push(mk(raw_encode(&unc(&nx, &yy), &base.c2, &base.c3, c1c3c2), None, "twist-point/orig-body"));
+                                    if let Some((c2, c3)) = complete(dd, &tpt, &msg) {
+                                        cases.push(mk(raw_encode(&unc(&nx, &yy), &c2, &c3, c1c3c2), None, "twist-point/invalid-curve-completed"));
+                                    }
+                                    if let Some((c2, c3)) = complete_with_library_arithmetic(dd, &tpt, &msg) {
+                                        cases.push(mk(raw_encode(&unc(&nx, &yy), &c2, &c3, c1c3c2), None, "twist-point/completed-with-library-arithmetic"));
+                                    }
+                                }
+                                found += 1;
+                            }
+                            nx += 1u32;
+                        }
+                    }
+                    // off-curve points with x^3 + a x + b = y instead of y^2, for y whose Montgomery form is the plain integer 1 or 2
+                    // (R^-1, 2 R^-1: a "multiply by one" shortcut keyed on the plain constant squares them to themselves) and y = 2
+                    {
+                        let rinv = (BigUint::one() << 256usize).modpow(&(&p - 2u32), &p);
+                        for (yl, yv) in [("R^-1", rinv.clone()), ("2R^-1", (&rinv * 2u32) % &p), ("2", BigUint::from(2u32))] {
+                            for (rl, rhs) in [("y", yv.clone()), ("2y", (&yv * 2u32) % &p)] {
+                                if let Some(xr) = sm2::xs_for_rhs(&rhs).first() {
+                                    let fpt: Pt = Some((xr.clone(), yv.clone()));
+                                    if sm2::on_curve(&fpt) {
+                                        continue;
+                                    }
+                                    cases.push(mk(raw_encode(&unc(xr, &yv), &base.c2, &base.c3, c1c3c2), None, &format!("offcurve-rhs(x)={}/y={}/orig-body", rl, yl)));
+                                    if let Some((c2, c3)) = complete(dd, &fpt, &msg) {
+                                        cases.push(mk(raw_encode(&unc(xr, &yv), &c2, &c3, c1c3c2), None, &format!("offcurve-rhs(x)={}/y={}/invalid-curve-completed", rl, yl)));
+                                    }
+                                    if let Some((c2, c3)) = complete_with_library_arithmetic(dd, &fpt, &msg) {
+                                        cases.push(mk(raw_encode(&unc(xr, &yv), &c2, &c3, c1c3c2), None, &format!("offcurve-rhs(x)={}/y={}/completed-with-library-arithmetic", rl, yl)));
+                                    }
+                                }
+                            }
                         }
                     }
                     cases.push(mk(raw_encode(&unc(&BigUint::zero(), &BigUint::zero()), &base.c2, &base.c3, c1c3c2), None, "C1=(0,0)"));
